@@ -31,6 +31,113 @@ theorem type_is_the_collectors_type (pref : Option Str) (labels : Option (List (
   obtain ⟨_, h2⟩ := hinv g hg'
   exact ⟨g, hg, hn, hty, fun c hc hne hcn => by rw [hty]; exact h2 c hc hne hcn⟩
 
+/-! ### families without samples do not matter -/
+
+/-- **empty_families_invisible** — `gather` drops the families a collector returns without samples
+    before merging, so they cannot influence anything (in particular not the declared type of a
+    family): gathering is gathering the families that have a sample. -/
+theorem empty_families_invisible (pref : Option Str) (labels : Option (List (Str × Str))) (collected : List Family) :
+    gatherFams pref labels collected =
+      gatherFams pref labels (collected.filter fun f => !f.samples.isEmpty) := by
+  show List.map _ (C07.merged collected) = List.map _ (C07.merged (collected.filter fun f => !f.samples.isEmpty))
+  rw [← merged_filter_nonempty]
+
+/-- **homogeneous_nonempty** — if under every name all collected families THAT HAVE A SAMPLE are of one
+    type `ty name` (families without samples may have any type), then for every iteration order
+    `collected'` of the collectors every gathered family is the family of a name `n` under which a
+    collected family with samples exists, its declared type is `ty n`, and each of its samples is a
+    sample (with the common labels appended) of a collected family of that name and of that type. -/
+theorem homogeneous_nonempty (pref : Option Str) (labels : Option (List (Str × Str)))
+    (collected collected' : List Family) (hp : collected.Perm collected')
+    (ty : Str → MType) (hh : ∀ c ∈ collected, c.samples ≠ [] → c.ty = ty c.name) :
+    ∀ f ∈ gatherFams pref labels collected', ∃ n, f.name = applyPrefix pref n ∧ f.ty = ty n ∧
+      (∃ c ∈ collected, c.samples ≠ [] ∧ c.name = n) ∧
+      ∀ s ∈ f.samples, ∃ c ∈ collected, c.name = n ∧ c.ty = ty n ∧
+        ∃ s0 ∈ c.samples, s = { s0 with labels := s0.labels ++ commonPairs labels } := by
+  intro f hf
+  have hh' : NonemptyTyped ty collected' := NonemptyTyped.perm hp hh
+  obtain ⟨g, hg, hn, _, hty, ss, hperm, hsamp⟩ := C07.gather_family_samples pref labels collected' f hf
+  refine ⟨g.name, hn, by rw [hty]; exact merged_ty hh' g hg, ?_, ?_⟩
+  · obtain ⟨c0, hc0, hne, hn0, _, _⟩ := C07.merged_attrs collected' g hg
+    exact ⟨c0, hp.mem_iff.2 hc0, hne, hn0⟩
+  · intro s hs
+    rw [hsamp] at hs
+    obtain ⟨s0, hs0, rfl⟩ := List.mem_map.1 hs
+    obtain ⟨c, hc, hcn, hsc⟩ := C09.merged_sample_origin collected' g hg s0 (hperm.subset hs0)
+    have hne : c.samples ≠ [] := fun e => by rw [e] at hsc; cases hsc
+    exact ⟨c, hp.mem_iff.2 hc, hcn, by rw [hh' c hc hne, hcn], s0, hsc, rfl⟩
+
+/-- `homogeneous_nonempty` with the pairwise hypothesis (two collected families with samples and the
+    same name have the same type): the declared type of a gathered family is the type of EVERY
+    collected family with samples under its name, whatever the order. -/
+theorem homogeneous_nonempty_pairwise (pref : Option Str) (labels : Option (List (Str × Str)))
+    (collected collected' : List Family) (hp : collected.Perm collected') (hh : NonemptySameType collected) :
+    ∀ f ∈ gatherFams pref labels collected', ∃ n, f.name = applyPrefix pref n ∧
+      (∃ c ∈ collected, c.samples ≠ [] ∧ c.name = n) ∧
+      (∀ c ∈ collected, c.samples ≠ [] → c.name = n → c.ty = f.ty) ∧
+      ∀ s ∈ f.samples, ∃ c ∈ collected, c.name = n ∧ c.ty = f.ty ∧
+        ∃ s0 ∈ c.samples, s = { s0 with labels := s0.labels ++ commonPairs labels } := by
+  obtain ⟨ty, hty⟩ := (nonemptySameType_iff collected).1 hh
+  intro f hf
+  obtain ⟨n, h1, h2, h3, h4⟩ := homogeneous_nonempty pref labels collected collected' hp ty hty f hf
+  refine ⟨n, h1, h3, ?_, ?_⟩
+  · intro c hc hne hcn
+    rw [h2, hty c hc hne, hcn]
+  · intro s hs
+    obtain ⟨c, hc, hcn, hct, hrest⟩ := h4 s hs
+    exact ⟨c, hc, hcn, by rw [h2]; exact hct, hrest⟩
+
+/-- the value part of C14 under the weakest hypothesis: when every collected sample carries a value of
+    its own family's type and the families with samples under one name have one type, every gathered
+    sample carries a value of the gathered family's declared type - whatever types the sample-less
+    families declare, for every order. (`homogeneous_partial` is the case `collected' = collected`.) -/
+theorem homogeneous_nonempty_values (pref : Option Str) (labels : Option (List (Str × Str)))
+    (collected collected' : List Family) (hp : collected.Perm collected')
+    (hv : ∀ c ∈ collected, ∀ s ∈ c.samples, s.val.kind = c.ty) (hh : NonemptySameType collected) :
+    ∀ f ∈ gatherFams pref labels collected', ∀ s ∈ f.samples, s.val.kind = f.ty := by
+  intro f hf s hs
+  obtain ⟨n, _, _, _, h4⟩ := homogeneous_nonempty_pairwise pref labels collected collected' hp hh f hf
+  obtain ⟨c, hc, _, hct, s0, hs0, rfl⟩ := h4 s hs
+  rw [← hct]
+  exact hv c hc s0 hs0
+
+/-- **declared_type_order_free** — under the same hypothesis the (name, declared type) list of the
+    gathered families does not depend on the order in which the collectors are visited (registration
+    order, hash seed), and not on the sample-less families at all. -/
+theorem declared_type_order_free (pref : Option Str) (labels : Option (List (Str × Str)))
+    (collected collected' : List Family) (hp : collected.Perm collected') (hh : NonemptySameType collected) :
+    (gatherFams pref labels collected).map (fun f => (f.name, f.ty)) =
+      (gatherFams pref labels collected').map (fun f => (f.name, f.ty)) := by
+  obtain ⟨ty, hty⟩ := (nonemptySameType_iff collected).1 hh
+  have hty' : NonemptyTyped ty collected' := NonemptyTyped.perm hp hty
+  have hnames : (C07.merged collected).map (·.name) = (C07.merged collected').map (·.name) := by
+    apply C07.strict_sorted_ext _ _ (C07.merged_names_strict collected) (C07.merged_names_strict collected')
+    intro x
+    rw [C07.merged_names_iff, C07.merged_names_iff]
+    constructor
+    · rintro ⟨f, hf, h1, h2⟩; exact ⟨f, hp.mem_iff.1 hf, h1, h2⟩
+    · rintro ⟨f, hf, h1, h2⟩; exact ⟨f, hp.mem_iff.2 hf, h1, h2⟩
+  have hm := C07.map_eq_of_names (fun g : Family => (applyPrefix pref g.name, g.ty)) _ _ hnames
+    (fun g hg g' hg' hn => by
+      show (applyPrefix pref g.name, g.ty) = (applyPrefix pref g'.name, g'.ty)
+      rw [merged_ty hty g hg, merged_ty hty' g' hg', hn])
+  show List.map _ (List.map _ (C07.merged collected)) = List.map _ (List.map _ (C07.merged collected'))
+  rw [List.map_map, List.map_map]
+  exact hm
+
+/-- non-vacuity: a sample-less GAUGE family under the name of the counters `fA`, `fB` breaks the
+    hypothesis of nothing here (`NonemptySameType` holds), and `gather` is as without it. -/
+def emptyGauge : Family := ⟨C07.fA.name, C07.fA.help, .gauge, []⟩
+example : gatherFams none none [emptyGauge, C07.fA, C07.fB, C07.fC] = gatherFams none none [C07.fA, C07.fB, C07.fC] ∧
+    gatherFams none none [C07.fA, emptyGauge, C07.fB, C07.fC] = gatherFams none none [C07.fA, C07.fB, C07.fC] := by
+  decide +kernel
+
+example : NonemptySameType [emptyGauge, C07.fA, C07.fB, C07.fC] := by
+  intro f hf g hg hnf hng hn
+  simp only [List.mem_cons, List.not_mem_nil, or_false] at hf hg
+  rcases hf with rfl | rfl | rfl | rfl <;> rcases hg with rfl | rfl | rfl | rfl <;>
+    first | rfl | (exfalso; exact hnf rfl) | (exfalso; exact hng rfl) | (exfalso; revert hn; decide +kernel)
+
 /-! ### the full statement is false (known finding K2) -/
 
 def cnt : Family := ⟨strOfString "m", strOfString "h", .counter, [⟨[⟨strOfString "k", strOfString "1"⟩], .counter 0x3FF0000000000000, 0⟩]⟩
